@@ -1,6 +1,7 @@
 package main
 
 import (
+	"os"
 	"fmt"
 	"go/constant"
 	"go/token"
@@ -20,7 +21,12 @@ func (e *Enc) Run() (err error) {
 				err = fmt.Errorf("%s: %s", ShortKey(e.key), string(ee))
 				return
 			}
-			panic(r)
+			if os.Getenv("GOVC_PANIC") != "" {
+				panic(r)
+			}
+			// an internal failure of the generator on this function: the obligations
+			// cannot be produced, which is reported like a binding failure (never as success)
+			err = fmt.Errorf("%s: internal error of the condition generator: %v", ShortKey(e.key), r)
 		}
 	}()
 	fn := e.fn
